@@ -271,6 +271,32 @@ static cocls::with_allocator<A, cocls::async<void>> make_body(int c, A &st, Fram
 }
 
 // ---------------------------------------------------------------------------------------------
+// frame sizes chosen by the compiler for the three body shapes: observed once, through a policy of
+// the harness (no library policy is involved: a broken policy must not break the calibration)
+// ---------------------------------------------------------------------------------------------
+struct calib_storage {
+    static inline std::size_t last = 0;
+    void *alloc(std::size_t sz) { last = sz; return malloc(sz); }
+    static void dealloc(void *p, std::size_t) { free(p); }
+};
+static std::size_t F[4] = {0, 0, 0, 0};
+
+static void calibrate() {
+    if (F[1]) return;
+    for (int c = 1; c <= 3; c++) {
+        calib_storage cs;
+        FrameRef ref;
+        calib_storage::last = 0;
+        { auto co = make_body<calib_storage>(c, cs, ref); }      // created and destroyed unstarted
+        F[c] = calib_storage::last;
+    }
+    if (!(F[1] >= N1 && F[1] + 100 <= F[2] && F[2] + 100 <= F[3] && F[3] + 100 <= arena::SLOTSZ)) {
+        fprintf(stderr, "frame sizes %zu %zu %zu cannot be classified\n", F[1], F[2], F[3]);
+        exit(3);
+    }
+}
+
+// ---------------------------------------------------------------------------------------------
 // policies
 // ---------------------------------------------------------------------------------------------
 enum class Pol { def, reusable, mtsafe, stack, placement, buffer, extra };
@@ -308,9 +334,6 @@ struct World {
     using S = typename PT<P>::S;
     using A = traced<S>;
     static constexpr std::size_t trailer = PT<P>::trailer;
-
-    // frame sizes chosen by the compiler for the three body shapes, observed once
-    static inline std::size_t F[4] = {0, 0, 0, 0};
 
     std::unique_ptr<A> storage;                 // all policies but stack
     std::deque<A> stack_storages;               // stack: one storage object per call (as scheduler.h does)
@@ -360,38 +383,6 @@ struct World {
         else return std::make_unique<A>();
     }
 
-    static void calib_alloc(void *ctx, void *, std::size_t sz) { *static_cast<std::size_t *>(ctx) = sz; }
-    static void calib_dealloc(void *, void *, std::size_t) {}
-
-    static void calibrate() {
-        if (F[1]) return;
-        World w;
-        w.place_size = 8192;
-        w.place = static_cast<unsigned char *>(malloc(w.place_size));
-        w.buf.reset(new Buf());
-        w.storage = w.make_storage();
-        std::size_t got = 0;
-        g_hook = TraceHook{&got, &calib_alloc, &calib_dealloc};
-        for (int c = 1; c <= 3; c++) {
-            got = 0;
-            FrameRef ref;
-            if constexpr (P == Pol::stack) {
-                std::size_t st = 0;
-                A s(st);            // _alloc_size = 0: heap path, the buffer pointer is never used
-                s.set_buffer(nullptr);
-                { auto co = make_body<A>(c, s, ref); }      // destroyed unstarted
-            } else {
-                { auto co = make_body<A>(c, *w.storage, ref); }
-            }
-            F[c] = got;
-        }
-        g_hook = TraceHook{};
-        if (!(F[1] >= N1 && F[1] + 100 <= F[2] && F[2] + 100 <= F[3] && F[3] + 100 <= arena::SLOTSZ)) {
-            fprintf(stderr, "frame sizes %zu %zu %zu cannot be classified\n", F[1], F[2], F[3]);
-            exit(3);
-        }
-    }
-
     // ---- hooks ----
     static void on_alloc(void *ctx, void *p, std::size_t sz) {
         World &w = *static_cast<World *>(ctx);
@@ -406,6 +397,7 @@ struct World {
         r.sz = sz;
         r.live = true;
         ref.r = &r;
+        if (ref.cls >= 1 && ref.cls <= 3 && sz != F[ref.cls]) w.note("frame-size-differs-from-calibration:" + std::to_string(r.id));
     }
     static void on_dealloc(void *ctx, void *p, std::size_t sz) {
         World &w = *static_cast<World *>(ctx);
@@ -780,12 +772,6 @@ struct World {
     }
 };
 
-template <Pol P>
-static void print_sizes(const char *name) {
-    World<P>::calibrate();
-    printf("SIZES %s %zu %zu %zu trailer=%zu\n", name, World<P>::F[1], World<P>::F[2], World<P>::F[3], World<P>::trailer);
-}
-
 int main(int argc, char **argv) {
     if (argc > 1 && !strcmp(argv[1], "--probe-grow")) {
         // order of the operator new / delete calls when reusable_storage::alloc grows
@@ -798,17 +784,12 @@ int main(int argc, char **argv) {
             st.alloc(200);
         }
         arena::events[arena::nevents] = 0;
-        printf("GROW %s\n", !strcmp(arena::events, "DN") ? "delete_new" : !strcmp(arena::events, "ND") ? "new_delete" : arena::events);
+        printf("GROW %s\n", !strcmp(arena::events, "DN") ? "delete_new" : !strcmp(arena::events, "ND") ? "new_delete" : "unknown");
         return 0;
     }
     if (argc > 1 && !strcmp(argv[1], "--sizes")) {
-        print_sizes<Pol::def>("default");
-        print_sizes<Pol::reusable>("reusable");
-        print_sizes<Pol::mtsafe>("mtsafe");
-        print_sizes<Pol::stack>("stack");
-        print_sizes<Pol::placement>("placement");
-        print_sizes<Pol::buffer>("buffer");
-        print_sizes<Pol::extra>("extra");
+        calibrate();
+        printf("SIZES %zu %zu %zu\n", F[1], F[2], F[3]);
         return 0;
     }
     return replay_main(std::cin, [](const Scenario &sc, Reporter &rep) {
